@@ -1,6 +1,6 @@
 ------------------------------- MODULE Trace_Select -------------------------------
 (* Code -> spec for SELECT (C01 C02 C03 C05 C07 C15): each ndjson line is one executed statement:
-     [id, sch (column -> type), rows (sequence of column -> value records), q (source-level query),
+     [id, sch (column -> type), cols (declaration order), rows (sequence of column -> value records), q (source-level query, possibly nested / wildcard),
       ok (accepted by the real compiler), names, types, out (observed rows, cells as <<t, n, d, s>>)]
    TLC compiles q with the specification's rules, executes it with the specification's mechanism and compares.
    One TLC step per line; a line the specification does not explain is reported and the run continues. *)
@@ -13,15 +13,14 @@ EncRows(rs) == [a \in 1..Len(rs) |-> [b \in 1..Len(rs[a]) |-> EncV(rs[a][b])]]
 Report(c, clause, exp) == PrintT(ToJson([verdict |-> "rejected", id |-> c.id, line |-> l, clause |-> clause, expected |-> exp]))
 
 Judge(c) ==
-    LET cq == Compile(c.q, c.sch) IN
-    IF cq.ok # c.ok THEN Report(c, IF cq.ok THEN "spec accepts, code rejects" ELSE "spec rejects, code accepts", <<cq.err>>)
-    ELSE IF ~cq.ok THEN TRUE
-    ELSE LET out == Exec(c.q, cq, c.rows, c.sch) IN
-         IF ExecOOD(c.q, cq, c.rows, c.sch) THEN TRUE        \* outside the model's domain: not judged
-         ELSE IF Len(cq.pivot) = 0 /\ [j \in 1..cq.nvis |-> cq.ts[j].name] # c.names THEN Report(c, "names", [j \in 1..cq.nvis |-> cq.ts[j].name])
-         ELSE IF Len(cq.pivot) = 0 /\ [j \in 1..cq.nvis |-> TypeOf(cq.ts[j].e, c.sch)] # c.types THEN Report(c, "types", [j \in 1..cq.nvis |-> TypeOf(cq.ts[j].e, c.sch)])
-         ELSE IF EncRows(out) # c.out THEN Report(c, "rows", EncRows(out))
-         ELSE TRUE
+    LET r == Run(c.q, c.rows, c.sch, c.cols) IN
+    IF r.ok # c.ok THEN Report(c, IF r.ok THEN "spec accepts, code rejects" ELSE "spec rejects, code accepts", <<r.err>>)
+    ELSE IF ~r.ok THEN TRUE
+    ELSE IF r.ood THEN TRUE                              \* outside the model's domain: not judged
+    ELSE IF Len(c.q.pivot) = 0 /\ r.names # c.names THEN Report(c, "names", r.names)
+    ELSE IF Len(c.q.pivot) = 0 /\ r.types # c.types THEN Report(c, "types", r.types)
+    ELSE IF EncRows(r.rows) # c.out THEN Report(c, "rows", EncRows(r.rows))
+    ELSE TRUE
 
 Init == l = 1 /\ nbad = 0
 Next == /\ l <= Len(Cases)
